@@ -349,6 +349,11 @@ pub fn push_cut(d: DuctId, bytes: &[u8], cuts: &[usize]) {
 /// `release_manual_gates` has removed it).
 pub const MANUAL_GATE: &str = "only-by-force_deliver";
 
+/// How often a scenario's "deliver now" action delivered something / found nothing to deliver (reported in evidence so
+/// that a vacuous action alphabet shows).
+pub static FORCED_DELIVERIES: std::sync::atomic::AtomicU64 = std::sync::atomic::AtomicU64::new(0);
+pub static FORCED_DELIVERIES_WITH_NOTHING_TO_DELIVER: std::sync::atomic::AtomicU64 = std::sync::atomic::AtomicU64::new(0);
+
 pub fn release_manual_gates(d: DuctId) {
     with(|w| w.ducts[d].pending.retain(|c| !matches!(c, Chunk::Gate(g) if g == MANUAL_GATE)));
 }
@@ -368,6 +373,7 @@ pub fn force_deliver(d: DuctId) -> bool {
         }
     });
     let has = with(|w| matches!(w.ducts[d].pending.front(), Some(Chunk::Data(_)) | Some(Chunk::Eof) | Some(Chunk::Err(_))));
+    (if has { &FORCED_DELIVERIES } else { &FORCED_DELIVERIES_WITH_NOTHING_TO_DELIVER }).fetch_add(1, std::sync::atomic::Ordering::Relaxed);
     if has {
         with(|w| {
             let s = w.step;
